@@ -2,6 +2,7 @@
 C26 — helper lemmas: varint round trip, reader primitives on encoded input, ghost-counter bookkeeping.
 -/
 import ZoektModel.C26.Spec
+import ZoektModel.C26.Orig
 namespace ZoektModel.C26
 open ZoektModel
 
@@ -277,3 +278,207 @@ theorem strLoop_enc : ∀ (ks : List Bytes) (rest : Bytes) (acc : List Bytes) (r
     simp only [List.length_cons, strLoop, List.flatMap_cons, List.append_assoc,
       str_enc k (hk k (by simp)), bind_ok, setInsert_new acc k hnotin, Reader.tick, Reader.charge]
     simpa using h
+
+/-! ### BranchesRepos on encoded input -/
+
+theorem bitmap_enc {β} (parse : Bytes → Option β) (sb : Bytes) (m : β) (hp : parse sb = some m)
+    (hk : sb.length < 2 ^ 63) (rest : Bytes) (e : Bool) (a s : Nat) :
+    Reader.bitmap parse ⟨encStr sb ++ rest, e, a, s⟩ = .ok (some (some m), ⟨rest, e, a, s⟩) := by
+  unfold Reader.bitmap encStr
+  simp only [List.append_assoc, uvarint_put sb.length hk]
+  have h : ¬ ((sb.length : Int) < 0 ∨ (sb.length : Int) > ((sb ++ rest).length : Int)) := by
+    simp; omega
+  have h' : 0 ≤ (sb.length : Int) ∧ (sb.length : Int) ≤ ((sb ++ rest).length : Int) := by
+    simp; omega
+  simp only [h, if_false, sliceTo, sliceFrom, h', and_self, if_true, bind_ok, pure_eq, Int.toNat_natCast,
+    List.take_left', List.drop_left', hp]
+
+def encBr (br : Bytes × Bytes) : Bytes := encStr br.1 ++ encStr br.2
+
+theorem length_le_flatMap_encBr (es : List (Bytes × Bytes)) : es.length ≤ (es.flatMap encBr).length := by
+  induction es with
+  | nil => simp
+  | cons k ks ih =>
+    have := putUvarint_length_pos k.1.length
+    simp only [List.flatMap_cons, List.length_append, List.length_cons, encBr, encStr]; omega
+
+theorem brLoop_enc {β} (parse : Bytes → Option β) (ser : β → Bytes) (hrt : ∀ m, parse (ser m) = some m) :
+    ∀ (brs : List (Bytes × β)) (rest : Bytes) (acc : List (Bytes × Option (Option β))) (r : Reader),
+    r.b = (brs.map fun br => (br.1, ser br.2)).flatMap encBr ++ rest → r.err = false →
+    (∀ br ∈ brs, br.1.length < 2 ^ 63 ∧ (ser br.2).length < 2 ^ 63) →
+    ∃ r', brLoop parse brs.length r acc = .ok (acc ++ brs.map (fun br => (br.1, some (some br.2))), r') ∧
+      r'.b = rest ∧ r'.err = false := by
+  intro brs
+  induction brs with
+  | nil => intro rest acc r hb he _; exact ⟨r, by simp [brLoop], by simpa using hb, he⟩
+  | cons k ks ih =>
+    intro rest acc r hb he hk
+    obtain ⟨b, e, a, s⟩ := r
+    simp only at hb he
+    subst hb he
+    obtain ⟨r', h, hb', he'⟩ := ih rest (acc ++ [(k.1, some (some k.2))])
+      ⟨(ks.map fun br => (br.1, ser br.2)).flatMap encBr ++ rest, false, a, s + 1⟩ rfl rfl
+      (fun x hx => hk x (by simp [hx]))
+    refine ⟨r', ?_, hb', he'⟩
+    have hk1 := hk k (by simp)
+    simp only [List.length_cons, brLoop, List.map_cons, List.flatMap_cons, encBr, List.append_assoc,
+      str_enc k.1 hk1.1, bind_ok, bitmap_enc parse (ser k.2) k.2 (hrt k.2) hk1.2, Reader.tick]
+    simpa [encBr] using h
+
+/-! ### ReposMap on encoded input -/
+
+def WFEntry (ke : Nat × Entry) : Prop :=
+  ke.1 < 2 ^ 32 ∧ -(2 ^ 63) ≤ ke.2.indexTime ∧ ke.2.indexTime < 2 ^ 63 ∧ ke.2.branches.length < 2 ^ 63 ∧
+  ∀ nv ∈ ke.2.branches, nv.1.length < 2 ^ 63 ∧ nv.2.length < 2 ^ 63
+
+theorem branchLoop_enc : ∀ (bs : List (Bytes × Bytes)) (rest : Bytes) (acc : List (Bytes × Bytes)) (r : Reader),
+    r.b = bs.flatMap encBranch ++ rest → r.err = false →
+    (∀ nv ∈ bs, nv.1.length < 2 ^ 63 ∧ nv.2.length < 2 ^ 63) →
+    ∃ r', branchLoop bs.length r acc = .ok (acc ++ bs, r') ∧ r'.b = rest ∧ r'.err = false := by
+  intro bs
+  induction bs with
+  | nil => intro rest acc r hb he _; exact ⟨r, by simp [branchLoop], by simpa using hb, he⟩
+  | cons k ks ih =>
+    intro rest acc r hb he hk
+    obtain ⟨b, e, a, s⟩ := r
+    simp only at hb he
+    subst hb he
+    obtain ⟨r', h, hb', he'⟩ := ih rest (acc ++ [k]) ⟨ks.flatMap encBranch ++ rest, false, a, s + 1⟩ rfl rfl
+      (fun x hx => hk x (by simp [hx]))
+    refine ⟨r', ?_, hb', he'⟩
+    have hk1 := hk k (by simp)
+    simp only [List.length_cons, branchLoop, List.flatMap_cons, encBranch, List.append_assoc,
+      str_enc k.1 hk1.1, bind_ok, str_enc k.2 hk1.2, Reader.tick]
+    simpa [encBranch] using h
+
+theorem length_le_flatMap_encBranch (bs : List (Bytes × Bytes)) : bs.length ≤ (bs.flatMap encBranch).length := by
+  induction bs with
+  | nil => simp
+  | cons k ks ih =>
+    have := putUvarint_length_pos k.1.length
+    simp only [List.flatMap_cons, List.length_append, List.length_cons, encBranch, encStr]; omega
+
+theorem readEntryHead_enc (ke : Nat × Entry) (hwf : WFEntry ke) (rest : Bytes) (e : Bool) (a s : Nat) :
+    readEntryHead true ⟨encEntry ke ++ rest, e, a, s⟩ =
+      (⟨(ke.1 : Int), ke.2.hasSymbols, ke.2.indexTime, (ke.2.branches.length : Int)⟩,
+       ⟨ke.2.branches.flatMap encBranch ++ rest, e, a, s⟩) := by
+  obtain ⟨h1, h2, h3, h4, _⟩ := hwf
+  unfold readEntryHead encEntry
+  have hk : ke.1 < 2 ^ 63 := by omega
+  simp only [List.append_assoc, uvarint_put ke.1 hk, List.cons_append, List.nil_append, Reader.byt, if_true,
+    uvarint_put_raw (toU64 ke.2.indexTime) (toU64_lt _), toInt_toU64 ke.2.indexTime h2 h3,
+    uvarint_put ke.2.branches.length h4]
+  cases ke.2.hasSymbols <;> simp
+
+theorem mapInsert_new (m : RMap) (k : Nat) (v : Entry) (h : k ∉ m.map (·.1)) : mapInsert m k v = m ++ [(k, v)] := by
+  unfold mapInsert
+  have : (m.any fun p => p.1 == k) = false := by
+    rw [List.any_eq_false]
+    intro p hp heq
+    exact h (by simp only [List.mem_map]; exact ⟨p, hp, by simpa using heq⟩)
+  simp [this]
+
+theorem totalBranches_cons (ke : Nat × Entry) (es : RMap) :
+    totalBranches (ke :: es) = ke.2.branches.length + totalBranches es := by
+  simp [totalBranches]
+
+theorem entryLoop_enc (cap : Nat) : ∀ (es : RMap) (rest : Bytes) (all : List (Bytes × Bytes)) (m0 : RMap) (r : Reader),
+    r.b = es.flatMap encEntry ++ rest → r.err = false →
+    all.length + totalBranches es ≤ cap → (∀ ke ∈ es, WFEntry ke) → ((m0 ++ es).map (·.1)).Nodup →
+    ∃ r', entryLoop true cap es.length r all m0 = .ok (some (m0 ++ es), r') ∧ r'.b = rest ∧ r'.err = false := by
+  intro es
+  induction es with
+  | nil => intro rest all m0 r hb he _ _ _; exact ⟨r, by simp [entryLoop], by simpa using hb, he⟩
+  | cons ke es ih =>
+    intro rest all m0 r hb he hcap hwf hnd
+    obtain ⟨b, e, a, s⟩ := r
+    simp only at hb he
+    subst hb he
+    have hw := hwf ke (by simp)
+    rw [totalBranches_cons] at hcap
+    obtain ⟨ra, hbl, hba, hea⟩ := branchLoop_enc ke.2.branches (es.flatMap encEntry ++ rest) all
+      ⟨ke.2.branches.flatMap encBranch ++ (es.flatMap encEntry ++ rest), false, a, s⟩ rfl rfl hw.2.2.2.2
+    obtain ⟨b2, e2, a2, s2⟩ := ra
+    simp only at hba hea
+    subst hba hea
+    have hnotin : ke.1 ∉ m0.map (·.1) := by
+      intro hm
+      have hnd' : (m0.map (·.1) ++ (ke :: es).map (·.1)).Nodup := by simpa using hnd
+      exact (List.nodup_append.mp hnd').2.2 ke.1 hm ke.1 (by simp) rfl
+    have hnd2 : (((m0 ++ [ke]) ++ es).map (·.1)).Nodup := by simpa using hnd
+    obtain ⟨r', h, hb', he'⟩ := ih rest (all ++ ke.2.branches) (m0 ++ [ke])
+      ⟨es.flatMap encEntry ++ rest, false, a2 + 1, s2 + 1⟩ rfl rfl (by simp; omega)
+      (fun x hx => hwf x (by simp [hx])) hnd2
+    refine ⟨r', ?_, hb', he'⟩
+    have hguard : ¬ ((ke.2.branches.length : Int) < 0 ∨
+        (ke.2.branches.length : Int) > (cap : Int) - (all.length : Int)) := by omega
+    have hslice : 0 ≤ ((all ++ ke.2.branches).length : Int) - (ke.2.branches.length : Int) ∧
+        ((all ++ ke.2.branches).length : Int) - (ke.2.branches.length : Int) ≤ ((all ++ ke.2.branches).length : Int) := by
+      simp; omega
+    have hdrop : (((all ++ ke.2.branches).length : Int) - (ke.2.branches.length : Int)).toNat = all.length := by
+      simp
+    have hkey : (((ke.1 : Nat) : Int) % 4294967296).toNat = ke.1 := by
+      have := hw.1; omega
+    simp only [List.length_cons, entryLoop, List.flatMap_cons, List.append_assoc, readEntryHead_enc ke hw,
+      hguard, if_false, Int.toNat_natCast, hbl, bind_ok, sliceFrom, hslice, and_self, if_true, hdrop,
+      List.drop_left', hkey, Reader.tick, Reader.charge]
+    rw [mapInsert_new m0 ke.1 _ hnotin]
+    simpa using h
+
+theorem totalBranches_le (es : RMap) : totalBranches es ≤ (es.flatMap encEntry).length := by
+  induction es with
+  | nil => simp [totalBranches]
+  | cons ke es ih =>
+    rw [totalBranches_cons]
+    have := length_le_flatMap_encBranch ke.2.branches
+    simp only [List.flatMap_cons, List.length_append, encEntry]
+    omega
+
+theorem length_le_flatMap_encEntry (es : RMap) : es.length ≤ (es.flatMap encEntry).length := by
+  induction es with
+  | nil => simp
+  | cons ke es ih =>
+    simp only [List.flatMap_cons, List.length_append, List.length_cons, encEntry]
+    omega
+
+/-! ### the code before the fix (Orig.lean) -/
+
+theorem putUvarint_length_le : ∀ (k x : Nat), 1 ≤ k → x < 128 ^ k → (putUvarint x).length ≤ k := by
+  intro k
+  induction k with
+  | zero => intro x h; omega
+  | succ k ih =>
+    intro x _ hx
+    unfold putUvarint
+    split
+    · simp
+    · rename_i hge
+      have hk : 1 ≤ k := by
+        rcases Nat.eq_zero_or_pos k with h | h
+        · subst h; simp at hx; omega
+        · omega
+      have : x / 128 < 128 ^ k := by
+        rw [Nat.pow_succ] at hx
+        exact Nat.div_lt_of_lt_mul (by rw [Nat.mul_comm]; exact hx)
+      have := ih (x / 128) hk this
+      simp; omega
+
+theorem strOrig_empty (r : Reader) (h : r.b = []) : r.strOrig = .ok ([], r) := by
+  obtain ⟨b, e, a, s⟩ := r
+  simp only at h
+  subst h
+  simp [Reader.strOrig, Reader.uvarint, uvarintRaw, uvarintGo, toInt, sliceTo, sliceFrom]
+
+theorem strLoopOrig_empty : ∀ (n : Nat) (r : Reader) (acc : List Bytes), r.b = [] →
+    ∃ res r', strLoopOrig n r acc = .ok (res, r') ∧ r'.steps = r.steps + n ∧ r'.alloc = r.alloc + n ∧ r'.err = r.err := by
+  intro n
+  induction n with
+  | zero => intro r acc _; exact ⟨acc, r, rfl, by simp, by simp, rfl⟩
+  | succ n ih =>
+    intro r acc hb
+    obtain ⟨res, r', h, hs, ha, he⟩ := ih (r.tick.charge 1) (setInsert acc []) (by simpa [Reader.tick, Reader.charge] using hb)
+    refine ⟨res, r', ?_, ?_, ?_, ?_⟩
+    · simp [strLoopOrig, strOrig_empty r hb, h]
+    · simp [Reader.tick, Reader.charge] at hs; omega
+    · simp [Reader.tick, Reader.charge] at ha; omega
+    · simpa [Reader.tick, Reader.charge] using he
